@@ -1,11 +1,15 @@
 (* case formats (all strings hex-encoded, "-" = empty):
      C20 tp <Type> <hex of string>          parse the string:  "ok <value>" | "err <class>"
      C20 tr <Type> <value>                  print the value and parse it back:  "<hex of printed string> ok <value>" | "... err <class>"
+     C20 sd <type> <caps> <points> <hex>    serde: the value is given by its consensus encoding (types tx txin1 txout1 header block params value
+                                            asset nonce) or directly (outpoint <txid>:<vout>, secrets <asset>,<abf>,<value>,<vbf>, locktime <u32>,
+                                            hash:<Name> <hex>, abf / vbf <hex>, script <hex>, str <hex of a Display string>);
+                                            result "J <json text> <ok same|ok diff|err> C <hex of cbor> <ok same|ok diff|err>"
    values: hashes and blinding factors = hex of the bytes in memory order; integers decimal; LockTime as its consensus u32 in,
    "B<n>" / "S<n>" out; OutPoint "<txid hex>:<vout>"; sighash types = their numeric value. *)
 From Coq Require Import List NArith Bool.
 From Coq.Strings Require Import Byte.
-From EV Require Import Base.Bytes Gen.Tables Model.Tx Model.Text Extract.RunUtil.
+From EV Require Import Base.Bytes Base.Codec Gen.Tables Model.Tx Model.Block Model.Text Model.Serde Extract.RunUtil.
 Import ListNotations.
 Open Scope N_scope.
 
@@ -55,6 +59,85 @@ Definition run_print (ty v : bytes) : option bytes :=
       else if is_ty ty "PsbtSighashType" then option_map print_psbt_sighash (N_of_dec v)
       else None end.
 
+(* ---------- serde ---------- *)
+Definition quote (s : bytes) : bytes := x22 :: s ++ [x22].
+Fixpoint render_json (v : sval) : bytes :=
+  match v with
+  | VUnit | VNone => "null"%lb
+  | VBool b => if b then "true"%lb else "false"%lb
+  | VU64 n => dec_of_N n
+  | VStr s => quote s
+  | VSeq l => "["%lb ++ join ","%lb (map render_json l) ++ "]"%lb
+  | VMap l => "{"%lb ++ join ","%lb (map (fun kv => render_json (fst kv) ++ ":"%lb ++ render_json (snd kv)) l) ++ "}"%lb
+  | _ => "?"%lb end.
+Definition cbor_head (major n : N) : bytes :=
+  let m := 32 * major in
+  if n <? 24 then [n2b (m + n)]
+  else if n <? 256 then [n2b (m + 24); n2b n]
+  else if n <? 65536 then n2b (m + 25) :: be_enc 2 n
+  else if n <? 4294967296 then n2b (m + 26) :: be_enc 4 n
+  else n2b (m + 27) :: be_enc 8 n.
+Fixpoint render_cbor (v : sval) : bytes :=
+  match v with
+  | VUnit | VNone => [xf6]
+  | VBool b => if b then [xf5] else [xf4]
+  | VU64 n => cbor_head 0 n
+  | VBytes b => cbor_head 2 (N.of_nat (length b)) ++ b
+  | VStr s => cbor_head 3 (N.of_nat (length s)) ++ s
+  | VSeq l => cbor_head 4 (N.of_nat (length l)) ++ concat (map render_cbor l)
+  | VMap l => cbor_head 5 (N.of_nat (length l)) ++ concat (map (fun kv => render_cbor (fst kv) ++ render_cbor (snd kv)) l)
+  | _ => [xff] end.
+
+Definition serde_line {A} (ser : bool -> A -> sval) (de : bool -> sval -> res A) (x : A) : bytes :=
+  let j := json_view (ser true x) in
+  let c := cbor_view (ser false x) in
+  let verdict (hr : bool) (w : sval) :=
+    match de hr w with
+    | Ok y => if bytes_eqb (render_json (json_view (ser true y))) (render_json j) then "ok same"%lb else "ok diff"%lb
+    | Err _ => "err"%lb end in
+  "J "%lb ++ render_json j ++ sp ++ verdict true j ++ " C "%lb ++ show_hex (render_cbor c) ++ sp ++ verdict false c.
+
+Definition mem_bytes (l : list bytes) (b : bytes) : bool := existsb (bytes_eqb b) l.
+Definition caps5 (s : bytes) : option (N * N * N * N * N) :=
+  match all_some (map N_of_dec (split_on x2c s [])) with
+  | Some [a; b; c; d; e] => Some (a, b, c, d, e) | _ => None end.
+Definition from_consensus {A} (c : codec A) (input : bytes) (k : A -> bytes) : bytes :=
+  match deserialize c input with Some v => k v | None => err "consensus" end.
+
+Definition run_serde (ty caps pts arg : bytes) : bytes :=
+  match caps5 caps, hexlist pts with
+  | Some (maxvec, ci, co, cv, ct), Some valid =>
+      let pt_ok := mem_bytes valid in
+      let hexv (k : bytes -> bytes) := match hexarg arg with Some b => k b | None => err "hex" end in
+      if is_ty ty "tx" then hexv (fun b => from_consensus (c_tx pt_ok maxvec ci co cv) b (serde_line (ser_tx) (de_tx pt_ok)))
+      else if is_ty ty "txin1" then hexv (fun b => from_consensus (c_tx pt_ok maxvec ci co cv) b (fun t => match tx_in t with [i] => serde_line ser_txin (de_txin pt_ok) i | _ => err "txin1" end))
+      else if is_ty ty "txout1" then hexv (fun b => from_consensus (c_tx pt_ok maxvec ci co cv) b (fun t => match tx_out t with [o] => serde_line ser_txout (de_txout pt_ok) o | _ => err "txout1" end))
+      else if is_ty ty "header" then hexv (fun b => from_consensus (c_header maxvec cv) b (serde_line ser_header (de_header)))
+      else if is_ty ty "block" then hexv (fun b => from_consensus (c_block pt_ok maxvec ci co cv ct) b (serde_line ser_block (de_block pt_ok)))
+      else if is_ty ty "params" then hexv (fun b => from_consensus (c_params maxvec cv) b (serde_line ser_params de_params))
+      else if is_ty ty "value" then hexv (fun b => from_consensus (c_value pt_ok) b (serde_line ser_value (de_value pt_ok)))
+      else if is_ty ty "asset" then hexv (fun b => from_consensus (c_asset pt_ok) b (serde_line ser_asset (de_asset pt_ok)))
+      else if is_ty ty "nonce" then hexv (fun b => from_consensus (c_nonce pt_ok) b (serde_line ser_nonce (de_nonce pt_ok)))
+      else if is_ty ty "outpoint" then match read_outpoint arg with Some o => serde_line ser_outpoint de_outpoint o | None => err "value" end
+      else if is_ty ty "locktime" then match N_of_dec arg with Some n => serde_line (fun _ => ser_locktime) (fun _ => de_locktime) (locktime_from_consensus n) | None => err "value" end
+      else if is_ty ty "secrets" then
+        match split_on x2c arg [] with
+        | [a; b; c; d] => match hexarg a, hexarg b, N_of_dec c, hexarg d with
+                          | Some a, Some b, Some c, Some d => serde_line ser_secrets de_secrets {| s_asset := a; s_abf := b; s_value := c; s_vbf := d |}
+                          | _, _, _, _ => err "value" end
+        | _ => err "value" end
+      else if is_ty ty "abf" then hexv (serde_line (fun hr => ser_bf hr hash_display_backward_AssetBlindingFactor) (fun hr => de_bf hr hash_parse_backward_AssetBlindingFactor))
+      else if is_ty ty "vbf" then hexv (serde_line (fun hr => ser_bf hr hash_display_backward_ValueBlindingFactor) (fun hr => de_bf hr hash_parse_backward_ValueBlindingFactor))
+      else if is_ty ty "script" then hexv (serde_line (fun _ => ser_script) (fun _ => de_script))
+      else if is_ty ty "str" then hexv (serde_line (fun _ => ser_string (fun s => s)) (fun _ => de_string (fun s => Ok s)))
+      else match ty with
+           | x68 :: x61 :: x73 :: x68 :: x3a :: name =>        (* "hash:" <Name> *)
+               match assoc name hash_text_table with
+               | Some (len, (db, pb)) => hexv (serde_line (fun hr => ser_hash hr db) (fun hr => de_hash hr len pb))
+               | None => err "type" end
+           | _ => err "type" end
+  | _, _ => err "parse" end.
+
 Definition run (args : list bytes) : bytes :=
   match args with
   | [k; ty; a] =>
@@ -64,4 +147,5 @@ Definition run (args : list bytes) : bytes :=
         | Some s => show_hex s ++ sp ++ run_parse ty s
         | None => err "value" end
       else err "kind"
+  | [k; ty; caps; pts; a] => if bytes_eqb k "sd"%lb then run_serde ty caps pts a else err "kind"
   | _ => err "args" end.
